@@ -213,7 +213,7 @@ func runWorldScripts(c *hx.Ctx, n int, wFail, wCancel int, fixed [][][3]any, che
 							r.apply("recv", x, nil, 0)
 							c.Class("world:recv")
 						}
-					} else if nS == 0 && c.Rng.Intn(3) == 0 {
+					} else if st := r.ref[x].VerifState(); nS <= 1 && c.Rng.Intn(3) == 0 && (st.Open == nil || st.Out != nil) {
 						r.apply("sendc", x, []byte{byte(97 + c.Rng.Intn(4))}, 0)
 						c.Class("world:send-cancelled-ctx")
 					}
